@@ -2,7 +2,8 @@
 # run every claimed check at the given tier, sequentially; summary at the end
 TIER=${1:-quick}
 cd /verif
-for id in $(python3 -c "import json;print(' '.join(c['property_id'] for c in json.load(open('MANIFEST.json'))['checks']))"); do
+IDS=${2:-$(python3 -c "import json;print(' '.join(c['property_id'] for c in json.load(open('MANIFEST.json'))['checks']))")}
+for id in $IDS; do
   s=$(date +%s); ./check $id $TIER > /verif/work/all_$id.log 2>&1; rc=$?; e=$(date +%s)
   echo "$id rc=$rc $((e-s))s $(grep -c '^VIOLATION' /verif/work/all_$id.log) violations $(grep -c '^KNOWN-FINDING' /verif/work/all_$id.log) known"
 done
